@@ -60,7 +60,7 @@ def configs(tier):
     lk = dict(BOPS='{"AddLink","End"}', LINKCTX=CTX_VI, LINKBUFS='{"b1","b2",""}', USESTART="TRUE",
               STARTLINKS="{<<>>, <<%s>>, <<%s, %s>>, <<%s, %s>>}" % (lnk(1, 0, "b1"), lnk(1, 0, "b1"), lnk(0, 0, "b2"),
                                                                     lnk(0, 1, "b2"), lnk(1, 0, "b2")))
-    cfgs.append(dict(name="buf-links-lc2-pl1", lim=lim(lc=2, pl=1), BUFINIT=mixed, **lk))
+    cfgs.append(dict(name="buf-links-lc2-pl1", lim=lim(lc=2, pl=1), BUFINIT=mixed, **lk, MAXWRITES=2))
     at = dict(BOPS='{"SetAttributes","End"}')
     cfgs.append(dict(name="buf-attrs", lim=lim(), BUFINIT=both_spare, **at, MAXCALLS=3, MAXWRITES=2))
     cfgs.append(dict(name="buf-start-attrs-ac2", lim=lim(ac=2), BUFINIT=mixed, USESTART="TRUE", MAXWRITES=2,
